@@ -185,13 +185,55 @@ def _unelse(body):
     return out
 
 
+def _side_effect_free(e) -> bool:
+    return not any(isinstance(x, (ast.Call, ast.Await, ast.Yield, ast.YieldFrom, ast.NamedExpr)) for x in ast.walk(e))
+
+
+def _drop_pass(lst):
+    out = []
+    for s_ in lst:
+        if isinstance(s_, ast.Pass):
+            continue
+        out.append(s_)
+        if isinstance(s_, (ast.Return, ast.Raise, ast.Continue, ast.Break)):
+            break   # N27: nothing after an unconditional jump is reached
+    return out if out else lst[:1]
+
+
 class Normalise(ast.NodeTransformer):
+    def visit_UnaryOp(self, n):
+        self.generic_visit(n)
+        if isinstance(n.op, ast.Not) and isinstance(n.operand, ast.Constant) and isinstance(n.operand.value, bool):
+            return ast.copy_location(ast.Constant(value=not n.operand.value), n)   # N17
+        return n
+
+    def visit_BoolOp(self, n):
+        self.generic_visit(n)
+        # N17: literal operands of and / or (left behind by a folded option): `True and x` -> x, `False and x` -> False, `False or x` -> x, `True or x` -> True
+        is_and = isinstance(n.op, ast.And)
+        vals = []
+        for v in n.values:
+            if isinstance(v, ast.Constant) and isinstance(v.value, bool):
+                if v.value == is_and:
+                    continue          # neutral element
+                vals.append(v)        # absorbing element: nothing after it is evaluated
+                break
+            vals.append(v)
+        if not vals:
+            return ast.copy_location(ast.Constant(value=is_and), n)
+        if len(vals) == 1:
+            return vals[0]
+        if isinstance(vals[-1], ast.Constant) and isinstance(vals[-1].value, bool) and vals[-1].value != is_and and all(_side_effect_free(v) for v in vals[:-1]):
+            return vals[-1]
+        n.values = vals
+        return n
+
     def generic_visit(self, node):
         node = super().generic_visit(node)
         for f in ("body", "orelse", "finalbody"):
             lst = getattr(node, f, None)
             if isinstance(lst, list) and lst and isinstance(lst[0], ast.stmt):
-                setattr(node, f, _merge_conditional_assignments(_unelse(_merge_nested_ifs(lst))))
+                setattr(node, f, _merge_conditional_assignments(_unelse(_merge_nested_ifs(_drop_pass(lst)))))
         for f in ("body", "orelse", "finalbody"):
             lst = getattr(node, f, None)
             if isinstance(lst, list) and f == "body" and not lst and isinstance(node, (ast.FunctionDef, ast.AsyncFunctionDef, ast.For, ast.AsyncFor, ast.While, ast.If,
@@ -282,6 +324,10 @@ class Normalise(ast.NodeTransformer):
                 and type(n.left.value) is type(n.comparators[0].value) and isinstance(n.left.value, (str, int, bool)):
             eq = n.left.value == n.comparators[0].value
             return ast.copy_location(ast.Constant(value=eq if isinstance(n.ops[0], ast.Eq) else not eq), n)
+        if len(n.ops) == 1 and isinstance(n.ops[0], (ast.Is, ast.IsNot)) and isinstance(n.left, ast.Constant) and isinstance(n.comparators[0], ast.Constant) \
+                and all(v is None or isinstance(v, bool) for v in (n.left.value, n.comparators[0].value)):
+            same = n.left.value is n.comparators[0].value
+            return ast.copy_location(ast.Constant(value=same if isinstance(n.ops[0], ast.Is) else not same), n)
         if len(n.ops) == 1 and type(n.ops[0]) in _MIRROR:
             l, r = n.left, n.comparators[0]
             swap = (_is_lit(l) and not _is_lit(r)) or (not _is_lit(l) and not _is_lit(r) and isinstance(n.ops[0], (ast.Gt, ast.GtE)))
@@ -1178,6 +1224,10 @@ class _Interpolation(ast.NodeTransformer):
         # adjacent literal pieces are one piece; `{x!s}` is `{x}` for the value's text
         vals = []
         for v in n.values:
+            if isinstance(v, ast.FormattedValue) and v.format_spec is None and v.conversion in (-1, 115) and isinstance(v.value, ast.Constant) and isinstance(v.value.value, str):
+                v = ast.copy_location(ast.Constant(value=v.value.value), v)   # {'lit'} is the literal
+            if isinstance(v, ast.Constant) and v.value == "":
+                continue
             if isinstance(v, ast.FormattedValue) and v.conversion == 115 and v.format_spec is None:
                 v = ast.copy_location(ast.FormattedValue(value=v.value, conversion=-1, format_spec=None), v)
             if isinstance(v, ast.Constant) and vals and isinstance(vals[-1], ast.Constant):
@@ -1188,8 +1238,136 @@ class _Interpolation(ast.NodeTransformer):
         return n
 
 
+# N24: a local that merely names a receiver attribute is that attribute --------------------------------------------------------------
+def _attr_chain(e):
+    """['self', 'a', 'b'] for self.a.b, else None"""
+    parts = []
+    while isinstance(e, ast.Attribute):
+        parts.append(e.attr)
+        e = e.value
+    if isinstance(e, ast.Name) and e.id == "self" and parts:
+        return ["self"] + parts[::-1]
+    return None
+
+
+def _inline_attribute_aliases(tree):
+    """N24: inside a method, `x = self.a.b` (x assigned exactly once, a plain attribute chain, no call) followed by uses of `x` reads as `self.a.b` at
+    every use - provided nothing in the method, nor in a method of the class it calls through `self.`, re-binds `self.a` (the object may be
+    mutated: that is the same object either way).  The inverse of "bind the attribute to a local once", a common micro-optimisation."""
+    for cls in [c for c in ast.walk(tree) if isinstance(c, ast.ClassDef)]:
+        methods = {m.name: m for m in cls.body if isinstance(m, (ast.FunctionDef, ast.AsyncFunctionDef))}
+        stores = {}
+        for nm, m in methods.items():
+            st = set()
+            for n in ast.walk(m):
+                if isinstance(n, ast.Attribute) and isinstance(n.ctx, (ast.Store, ast.Del)) and isinstance(n.value, ast.Name) and n.value.id == "self":
+                    st.add(n.attr)
+            stores[nm] = st
+        for nm, m in methods.items():
+            if nm in ("__init__", "__post_init__"):
+                continue
+            called = {n.func.attr for n in ast.walk(m) if isinstance(n, ast.Call) and isinstance(n.func, ast.Attribute) and isinstance(n.func.value, ast.Name)
+                      and n.func.value.id == "self" and n.func.attr in methods}
+            # aliases of methods count as calls of them
+            rebound = set(stores[nm])
+            frontier, seen = set(called), set()
+            for _ in range(3):
+                nxt = set()
+                for c in frontier - seen:
+                    seen.add(c)
+                    rebound |= stores.get(c, set())
+                    nxt |= {n.func.attr for n in ast.walk(methods[c]) if isinstance(n, ast.Call) and isinstance(n.func, ast.Attribute)
+                            and isinstance(n.func.value, ast.Name) and n.func.value.id == "self" and n.func.attr in methods}
+                frontier = nxt
+            if frontier - seen:
+                continue   # call chain deeper than followed: leave the method alone
+            nested = {x.id for f in ast.walk(m) if isinstance(f, (ast.FunctionDef, ast.AsyncFunctionDef, ast.Lambda)) and f is not m for x in ast.walk(f) if isinstance(x, ast.Name)}
+            counts = {}
+            for n in ast.walk(m):
+                if isinstance(n, ast.Name) and isinstance(n.ctx, (ast.Store, ast.Del)):
+                    counts[n.id] = counts.get(n.id, 0) + 1
+            params = {a.arg for a in m.args.posonlyargs + m.args.args + m.args.kwonlyargs}
+            aliases = {}
+            for n in ast.walk(m):
+                if isinstance(n, ast.Assign) and len(n.targets) == 1 and isinstance(n.targets[0], ast.Name):
+                    x = n.targets[0].id
+                    ch = _attr_chain(n.value)
+                    if ch and counts.get(x) == 1 and x not in params and x not in nested and ch[1] not in rebound:
+                        # a method alias is stable; a field alias needs the method calls it makes not to re-bind the field (checked above via `rebound`)
+                        aliases[x] = (n, n.value)
+            if not aliases:
+                continue
+
+            class S(ast.NodeTransformer):
+                def visit_Name(self, n):
+                    if isinstance(n.ctx, ast.Load) and n.id in aliases and (n.lineno, n.col_offset) > (aliases[n.id][0].lineno, aliases[n.id][0].col_offset):
+                        return ast.copy_location(copy.deepcopy(aliases[n.id][1]), n)
+                    return n
+            # every use must come after the definition (lexically); otherwise keep the alias
+            ok = {x for x in aliases}
+            for n in ast.walk(m):
+                if isinstance(n, ast.Name) and isinstance(n.ctx, ast.Load) and n.id in aliases and not (n.lineno, n.col_offset) > (aliases[n.id][0].lineno, aliases[n.id][0].col_offset):
+                    ok.discard(n.id)
+            aliases = {x: v for x, v in aliases.items() if x in ok}
+            if not aliases:
+                continue
+            S().visit(m)
+            drop = {id(v[0]) for v in aliases.values()}
+
+            class D(ast.NodeTransformer):
+                def visit_Assign(self, n):
+                    return None if id(n) in drop else n
+            D().visit(m)
+            for node in ast.walk(m):
+                for f in ("body", "orelse", "finalbody"):
+                    b = getattr(node, f, None)
+                    if isinstance(b, list) and f == "body" and not b and isinstance(node, (ast.FunctionDef, ast.For, ast.While, ast.If, ast.With, ast.Try)):
+                        b.append(ast.copy_location(ast.Pass(), node))
+    return tree
+
+
+def _drop_empty_splats(tree):
+    """N26: `f(a, **extra)` where `extra` is a local bound once to an empty dict / list / tuple literal and never written to (no item store, no
+    method call on it, not passed anywhere else) is `f(a)`; likewise `*extra`.  What is left over after an opt-in option was folded away."""
+    for fn in [f for f in ast.walk(tree) if isinstance(f, (ast.FunctionDef, ast.AsyncFunctionDef))]:
+        empties = {}
+        stores = {}
+        for n in ast.walk(fn):
+            if isinstance(n, ast.Name) and isinstance(n.ctx, (ast.Store, ast.Del)):
+                stores[n.id] = stores.get(n.id, 0) + 1
+        for n in ast.walk(fn):
+            if isinstance(n, ast.Assign) and len(n.targets) == 1 and isinstance(n.targets[0], ast.Name):
+                v = n.value
+                if (isinstance(v, (ast.Dict, ast.List, ast.Tuple)) and not (getattr(v, "keys", None) or getattr(v, "elts", None))) or \
+                        (isinstance(v, ast.Call) and isinstance(v.func, ast.Name) and v.func.id in ("dict", "list", "tuple") and not v.args and not v.keywords):
+                    if stores.get(n.targets[0].id) == 1:
+                        empties[n.targets[0].id] = n
+        if not empties:
+            continue
+        uses = {}
+        for n in ast.walk(fn):
+            for ch in ast.iter_child_nodes(n):
+                if isinstance(ch, ast.Name) and ch.id in empties and isinstance(ch.ctx, ast.Load):
+                    ok = (isinstance(n, ast.keyword) and n.arg is None) or isinstance(n, ast.Starred)
+                    uses.setdefault(ch.id, []).append(ok)
+        dead = {x for x, us in uses.items() if us and all(us)}
+        if not dead:
+            continue
+        for c in ast.walk(fn):
+            if isinstance(c, ast.Call):
+                c.keywords = [k for k in c.keywords if not (k.arg is None and isinstance(k.value, ast.Name) and k.value.id in dead)]
+                c.args = [a for a in c.args if not (isinstance(a, ast.Starred) and isinstance(a.value, ast.Name) and a.value.id in dead)]
+
+        class D(ast.NodeTransformer):
+            def visit_Assign(self, n):
+                return None if any(n is empties[x] for x in dead) else n
+        D().visit(fn)
+    return tree
+
+
 def normalise(tree: ast.AST, extern=None) -> ast.AST:
     tree = _canonical_imports(tree)
+    tree = _inline_attribute_aliases(tree)
     tree = _Interpolation().visit(tree)
     tree = _positional_calls(tree, extern)
     tree = Normalise().visit(tree)
@@ -1201,5 +1379,6 @@ def normalise(tree: ast.AST, extern=None) -> ast.AST:
     tree = _defaultdict_groups(tree)
     tree = _unpack_of_literal_map(tree)
     tree = _inline_single_use_temps(tree)
+    tree = _drop_empty_splats(tree)
     ast.fix_missing_locations(tree)
     return tree
